@@ -51,9 +51,11 @@ BUFS = [16, 61, 4096]
 def minimums(tier: str) -> Dict[str, int]:
     if tier == "quick":
         return {"evaluations": 3000, "distinct": 1000, "getobj_compared": 50000, "absent_lookups": 5000, "fallback_docs": 150,
-                "form:table": 300, "form:stream": 300, "form:hybrid": 300, "packed_objects_read": 2000, "tail_sweep_opens": 3000}
+                "form:table": 300, "form:stream": 300, "form:hybrid": 300, "packed_objects_read": 2000, "tail_sweep_opens": 3000,
+                "dumpall_docs": 400, "dumpall_falsy_objects": 200}
     return {"evaluations": 60000, "distinct": 20000, "getobj_compared": 1000000, "absent_lookups": 100000, "fallback_docs": 3000,
-            "form:table": 6000, "form:stream": 6000, "form:hybrid": 6000, "packed_objects_read": 40000, "tail_sweep_opens": 60000}
+            "form:table": 6000, "form:stream": 6000, "form:hybrid": 6000, "packed_objects_read": 40000, "tail_sweep_opens": 60000,
+            "dumpall_docs": 8000, "dumpall_falsy_objects": 4000}
 
 
 def shards(tier: str, seed: int) -> List[Dict[str, Any]]:
@@ -69,7 +71,11 @@ def shards(tier: str, seed: int) -> List[Dict[str, Any]]:
 def gen_value(rng: random.Random, rev: int, n: int, kind: Optional[str] = None) -> Any:
     """A value embedding the unique marker (rev, objid)."""
     mark = b"r%d-o%d" % (rev, n)
-    k = kind or rng.choice(["dict", "dict", "array", "string", "stream", "int", "name", "nested", "ref", "hexstr"])
+    k = kind or rng.choice(["dict", "dict", "array", "string", "stream", "int", "name", "nested", "ref", "hexstr", "dict", "falsy"])
+    if k == "falsy":
+        # values that are false in Python (they cannot carry the marker): an object whose newest value is one of them is
+        # still an in-use object with that value
+        return rng.choice([0, Real("0.0"), [], b"", HexStr(b""), {}, False, Real("-0.0")])
     if k == "dict":
         return {"Mark": mark, "Rev": rev, "Obj": n, "Next": Ref(rng.randint(1, 60))}
     if k == "array":
@@ -278,6 +284,57 @@ def check_rendering(rec, hist, R, label: str, cfgs) -> List[Tuple[str, str]]:
     return fails
 
 
+_DUMPPDF: List[Any] = []
+
+
+def check_dumpall(rec, hist, R, label: str) -> List[Tuple[str, str]]:
+    """tools/dumppdf.py -a (dumpallobjs) lists every in-use object once: the ids it reports must be the objects of the
+    model whose newest value is not null, plus the containers (object and cross-reference streams)."""
+    import importlib.util
+    import os
+    import re
+
+    from pdfminer.pdfdocument import PDFDocument
+    from pdfminer.pdfparser import PDFParser
+    from vf import REPO
+
+    if not _DUMPPDF:
+        spec = importlib.util.spec_from_file_location("vf_c02_dumppdf", os.path.join(REPO, "tools", "dumppdf.py"))
+        mod = importlib.util.module_from_spec(spec)    # type: ignore[arg-type]
+        spec.loader.exec_module(mod)                    # type: ignore[union-attr]
+        _DUMPPDF.append(mod)
+    m = model(hist)
+    exp = {n for n, (_, v) in m.items() if v is not None} | set(R.containers)
+    falsy = {n for n, (_, v) in m.items() if v is not None and not isinstance(v, Stream) and _is_falsy(v)}
+    out = io.StringIO()
+    try:
+        _DUMPPDF[0].dumpallobjs(out, PDFDocument(PDFParser(io.BytesIO(R.data))))
+    except Exception as e:  # noqa: BLE001
+        return [("dumpall_raised:%s" % type(e).__name__, "%s forms=%s: dumppdf -a: %s: %s" % (label, "+".join(R.forms), type(e).__name__, e))]
+    got = [int(x) for x in re.findall(r'<object id="(\d+)">', out.getvalue())]
+    rec.count("dumpall_docs")
+    rec.count("dumpall_falsy_objects", len(falsy))
+    fails: List[Tuple[str, str]] = []
+    if len(got) != len(set(got)):
+        fails.append(("dumpall_duplicates", "%s forms=%s: dumppdf -a lists an object twice: %s" % (label, "+".join(R.forms), sorted(n for n in set(got) if got.count(n) > 1)[:8])))
+    if set(got) != exp:
+        missing = sorted(exp - set(got))
+        kind = "falsy_value" if missing and set(missing) <= falsy else "ids"
+        fails.append(("dumpall_wrong:" + kind, "%s forms=%s: dumppdf -a: missing %s, extra %s" % (label, "+".join(R.forms), missing[:12], sorted(set(got) - exp)[:12])))
+    return fails
+
+
+def _is_falsy(v: Any) -> bool:
+    if isinstance(v, Real):
+        return float(v.text) == 0.0
+    if isinstance(v, (Name, Ref)):
+        return False
+    try:
+        return not v
+    except Exception:  # noqa: BLE001
+        return False
+
+
 def tail_probe(hist, R, bufsiz: int) -> Optional[Tuple[str, str]]:
     """Open the rendering with one buffer size and check that the newest revision was found (catalog + one object)."""
     m = model(hist)
@@ -329,6 +386,8 @@ def run_history(rec, rng: random.Random, tier: str, hseed: str) -> None:
                     rec.fail("tail_bufsize:" + r[0], {"hseed": hseed, "tier": tier, "form": k, "bufsiz": bs}, "form%d BUFSIZ=%d forms=%s: %s" % (k, bs, "+".join(R.forms), r[1]))
                     break
         fails = check_rendering(rec, hist, R, "form%d" % k, cfgs)
+        if k == 2 or len(hist) % 3 == k:
+            fails += check_dumpall(rec, hist, R, "form%d" % k)
         for f in R.forms:
             rec.count("form:" + f)
         for ft in R.features:
@@ -359,7 +418,8 @@ def build_fallback_doc(rng: random.Random) -> Tuple[bytes, Dict[int, int], int, 
     for i in range(nobj):
         r = doc.add(gen_value(rng, 0, 100 + i, rng.choice(["dict", "array", "string", "int", "name", "nested"])))
         extra[r.n] = doc.objs[r.n]
-    data = doc.build(xref="table")
+    # 7.2.2: the value may follow the `obj` keyword after any white space, or directly when it starts with a delimiter
+    data = doc.build(xref="table", obj_sep=rng.choice([b"\n", b"\n", b"", b"", b" ", b"\r\n", b"\t"]))
     return data, {}, 0, 0, " ".join(lines)
 
 
